@@ -149,6 +149,8 @@ def gen_cases(ctx):
     add("INTEGER", [[spec(('r', 0, 2**64))]], "corpus")
     add("INTEGER", [[spec(('r', 1, 10), True), spec(('r', 2, 5))]], "corpus")
     add("INTEGER", [[spec(('r', 1, 10)), spec(('r', 2, 5), True)]], "corpus")
+    add("INTEGER", [[spec(('r', 'MIN', 5), True)]], "corpus")                                   # F94
+    add("INTEGER", [[spec(('p', mk_u([('r', 2, 2**63 - 1), ('v', 2**63 + 1)])))]], "corpus")     # F95
     for ty in TYPES: add(ty, [[]], "corpus")
 
     # 1. every atom, alone / extensible
